@@ -453,6 +453,7 @@ func RunC03(c *Ctx, r *Report) {
 	w.perFunctionRule(r, prefix+"siblings.shared-record")
 	w.completeRule(r, prefix+"complete", "ed")
 	w.nestedDispatchRule(r, prefix+"nested-dispatch")
+	c.valueGuardRule(r, prefix+"value-guards")
 	c.akaRules(r, prefix, "roundtrip")
 }
 
